@@ -57,3 +57,16 @@ func VerifInstallSymValues(names []string, vals map[string]base.T) {
 		append(base.ClassInheritanceMap[classNode], base.ClassNode{Frame: "Builtin", Class: ""})
 	d.SetDefinedClass()
 }
+
+// VerifInstallSymKw adds Sym.kw(Integer, ka: Integer, kb: String, kc: Integer = default),
+// declared the way the loader declares keyword parameters.
+func VerifInstallSymKw() {
+	d := NewDefineBuiltinMethod("Builtin", "Sym")
+	args := parseArguments([]MethodArgument{
+		{Type: TypeSpec{"Int"}},
+		{Type: TypeSpec{"Int"}, Key: "ka:"},
+		{Type: TypeSpec{"String"}, Key: "kb:"},
+		{Type: TypeSpec{"Int"}, Key: "kc:", IsDefault: true},
+	})
+	d.defineBuiltinStaticMethod("Builtin", "kw", args, *base.MakeAnyInt())
+}
